@@ -22,7 +22,9 @@ EXPLANATION = (
     'labelled list a game shows and resolves typed labels against is the list enumerated NOW for the board and the side to move (no '
     'remembered list), and the typed label is matched by exact string equality against it (imports C14.R3). R1/R2 accept the per-'
     'candidate test written as closure (for_each / filter+collect / extend) or as a plain for loop; file / rank characters are '
-    "recognised semantically (character 0 / 1 of the square's algebraic name) whichever helper extracts them."
+    "recognised semantically (character 0 / 1 of the square's algebraic name) whichever helper extracts them. Parameters that every "
+    "caller fills with the labelled move's piece / origin / destination are treated as those values (role parameters); a list of the "
+    "rivals' origin squares serves as the rival list."
 )
 ASSUMPTIONS = [
     "Iterator::any returns true iff the predicate holds for some element",
